@@ -376,6 +376,197 @@ theorem rel_template (E : Env) (N : Nat) (hl : E.limit = some N) (hN : N ≠ 0) 
   · exact rel_refl_error N _
   · exact (rel_aux E N hl hN).2.2.1 _ _ _ (by simp [GhostInv, Cx.measured]) (by simp; omega)
 
+
+theorem seqRes_ne {a : Res} {pre : List Ev} {b : Macros → Res} {e : Err}
+    (ha : a ≠ .error e) (hb : ∀ m1, b m1 ≠ .error e) : seqRes a pre b ≠ .error e := by
+  unfold seqRes
+  cases a with
+  | error e' => intro h; cases h; exact ha rfl
+  | ok p =>
+    obtain ⟨m1, t1⟩ := p
+    simp only []
+    cases hb1 : b m1 with
+    | error e' => intro h; cases h; exact hb m1 hb1
+    | ok q => intro h; cases h
+
+theorem discardRes_ne {m : Macros} {a : Res} {e : Err} (ha : a ≠ .error e) : discardRes m a ≠ .error e := by
+  unfold discardRes
+  cases a with
+  | error e' => intro h; cases h; exact ha rfl
+  | ok p => intro h; cases h
+
+/-- with no limit configured (`None`, or the falsy `0`) no check ever fires -/
+theorem never_raises_aux (E : Env) (hl : ∀ c n, overLimit E.limit c n = false) :
+    (∀ c m node, render E c m node ≠ .error .loopLimit) ∧
+    (∀ c m site body, renderPartial E c m site body ≠ .error .loopLimit) ∧
+    (∀ c m body, renderList E c m body ≠ .error .loopLimit) ∧
+    (∀ c m site body k, iterPartial E c m site body k ≠ .error .loopLimit) ∧
+    (∀ c m id body k, iter E c m id body k ≠ .error .loopLimit) := by
+  apply render.mutual_induct E
+    (motive1 := fun c m node => render E c m node ≠ .error .loopLimit)
+    (motive2 := fun c m site body => renderPartial E c m site body ≠ .error .loopLimit)
+    (motive3 := fun c m body => renderList E c m body ≠ .error .loopLimit)
+    (motive4 := fun c m site body k => iterPartial E c m site body k ≠ .error .loopLimit)
+    (motive5 := fun c m id body k => iter E c m id body k ≠ .error .loopLimit)
+  all_goals try (intros; simp_all [render, renderList, iter, renderPartial, iterPartial]; done)
+  all_goals try (intros; simp only [render, renderList, iter, renderPartial, iterPartial, *]; simp_all [seqRes_ne, discardRes_ne]; done)
+  case case16 =>
+    intro c m site name hni body hlk hs ih
+    have hni' : c.noInclude = false := by simpa using hni
+    simp only [hni'] at ih
+    simp only [render, hni', hlk, hs, dite_false]
+    simpa using ih
+  case case21 =>
+    intro c m site name body hlk hd ih
+    simp only [render, hlk, hd, dite_false]
+    exact discardRes_ne ih
+  case case31 =>
+    intro c m site body k ih1 ih2
+    rw [iterPartial_succ]
+    exact seqRes_ne ih1 ih2
+
+
+/-- what remains of a result when the ghost lists are erased: error class, macro table, executed block ids -/
+def erase (r : Res) : Except Err (Macros × List Nat) :=
+  match r with
+  | .error e => .error e
+  | .ok (m, tr) => .ok (m, tr.map (·.id))
+
+theorem erase_seq {a a' : Res} {pre pre' : List Ev} {b b' : Macros → Res}
+    (ha : erase a = erase a') (hp : pre.map (·.id) = pre'.map (·.id)) (hb : ∀ m1, erase (b m1) = erase (b' m1)) :
+    erase (seqRes a pre b) = erase (seqRes a' pre' b') := by
+  cases a with
+  | error e =>
+    cases a' with
+    | error e' => simpa [erase, seqRes] using ha
+    | ok p => simp [erase] at ha
+  | ok p =>
+    obtain ⟨m1, t1⟩ := p
+    cases a' with
+    | error e' => simp [erase] at ha
+    | ok p' =>
+      obtain ⟨m1', t1'⟩ := p'
+      simp only [erase, Except.ok.injEq, Prod.mk.injEq] at ha
+      obtain ⟨rfl, ht⟩ := ha
+      have := hb m1
+      simp only [seqRes]
+      cases hb1 : b m1 with
+      | error e =>
+        rw [hb1] at this
+        cases hb2 : b' m1 with
+        | error e' => rw [hb2] at this; simpa [erase] using this
+        | ok q => rw [hb2] at this; simp [erase] at this
+      | ok q =>
+        obtain ⟨m2, t2⟩ := q
+        rw [hb1] at this
+        cases hb2 : b' m1 with
+        | error e' => rw [hb2] at this; simp [erase] at this
+        | ok q' =>
+          obtain ⟨m2', t2'⟩ := q'
+          rw [hb2] at this
+          simp only [erase, Except.ok.injEq, Prod.mk.injEq] at this
+          obtain ⟨rfl, ht2⟩ := this
+          simp [erase, hp, ht, ht2]
+
+theorem erase_discard {a a' : Res} (m : Macros) (ha : erase a = erase a') :
+    erase (discardRes m a) = erase (discardRes m a') := by
+  cases a with
+  | error e =>
+    cases a' with
+    | error e' => simpa [erase, discardRes] using ha
+    | ok p => simp [erase] at ha
+  | ok p =>
+    cases a' with
+    | error e' => simp [erase] at ha
+    | ok p' =>
+      simp only [erase, Except.ok.injEq, Prod.mk.injEq] at ha
+      simp [erase, discardRes, ha.2]
+
+@[simp] theorem overLimit_ghost (lim : Option Nat) (c : Cx) (g : List Nat) (n : Nat) :
+    overLimit lim { c with ghost := g } n = overLimit lim c n := rfl
+
+theorem erase_aux (E : Env) :
+    (∀ c m node, ∀ g, erase (render E { c with ghost := g } m node) = erase (render E c m node)) ∧
+    (∀ c m site body, ∀ g, erase (renderPartial E { c with ghost := g } m site body) = erase (renderPartial E c m site body)) ∧
+    (∀ c m body, ∀ g, erase (renderList E { c with ghost := g } m body) = erase (renderList E c m body)) ∧
+    (∀ c m site body k, ∀ g, erase (iterPartial E { c with ghost := g } m site body k) = erase (iterPartial E c m site body k)) ∧
+    (∀ c m id body k, ∀ g, erase (iter E { c with ghost := g } m id body k) = erase (iter E c m id body k)) := by
+  apply render.mutual_induct E
+    (motive1 := fun c m node => ∀ g, erase (render E { c with ghost := g } m node) = erase (render E c m node))
+    (motive2 := fun c m site body => ∀ g, erase (renderPartial E { c with ghost := g } m site body) = erase (renderPartial E c m site body))
+    (motive3 := fun c m body => ∀ g, erase (renderList E { c with ghost := g } m body) = erase (renderList E c m body))
+    (motive4 := fun c m site body k => ∀ g, erase (iterPartial E { c with ghost := g } m site body k) = erase (iterPartial E c m site body k))
+    (motive5 := fun c m id body k => ∀ g, erase (iter E { c with ghost := g } m id body k) = erase (iter E c m id body k))
+  all_goals try (intros; simp [render, renderList, iter, iterPartial, renderPartial_eq, erase, *]; done)
+  case case2 =>
+    intro c m body ih g
+    simpa [render] using ih g
+  case case6 =>
+    intro c m id n body dflt hn ho hs ih g
+    simp only [render, hn, ho, hs, overLimit_ghost, ne_eq, not_false_eq_true, if_true, if_false, dite_false]
+    exact ih (g ++ [n])
+  case case7 =>
+    intro c m id n body dflt hn ih g
+    have hn' : n = 0 := by simpa using hn
+    simpa [render, hn'] using ih g
+  case case10 =>
+    intro c m id n body ho hs ih g
+    simp only [render, ho, hs, overLimit_ghost, if_true, if_false, dite_false]
+    exact ih (g ++ [n])
+  case case14 =>
+    intro c m site name hni body hlk hs n ho g
+    have hni' : c.noInclude = false := by simpa using hni
+    simp only [hni'] at ho
+    have ho' : overLimit E.limit (Cx.mk c.loops c.carry c.copyDepth (c.scope + 1) false g) n = true := ho
+    simp [render, hni', hlk, hs, ho, ho', erase]
+  case case15 =>
+    intro c m site name hni body hlk hs n ho ih g
+    have hni' : c.noInclude = false := by simpa using hni
+    simp only [hni'] at ho ih
+    have ho' : ¬ overLimit E.limit (Cx.mk c.loops c.carry c.copyDepth (c.scope + 1) false g) n = true := ho
+    simp only [render, hni', hlk, hs, ho, ho', Bool.false_eq_true, if_false, dite_false]
+    exact ih (g ++ [n])
+  case case16 =>
+    intro c m site name hni body hlk hs ih g
+    have hni' : c.noInclude = false := by simpa using hni
+    simp only [hni'] at ih
+    simp only [render, hni', hlk, hs, Bool.false_eq_true, if_false, dite_false]
+    exact ih g
+  case case19 =>
+    intro c m site name body hlk hd n ho g
+    have ho' : overLimit E.limit (Cx.copied { c with ghost := g }) n = true := ho
+    simp [render, hlk, hd, ho, ho', erase]
+  case case20 =>
+    intro c m site name body hlk hd n ho ih g
+    have ho' : ¬ overLimit E.limit (Cx.copied { c with ghost := g }) n = true := ho
+    simp only [render, hlk, hd, ho, ho', if_false, dite_false]
+    exact erase_discard m (ih (g ++ [n]))
+  case case21 =>
+    intro c m site name body hlk hd ih g
+    simp only [render, hlk, hd, dite_false]
+    exact erase_discard m (ih g)
+  case case25 =>
+    intro c m name body hlk hd ih g
+    simp only [render, hlk, hd, dite_false]
+    exact erase_discard m (ih g)
+  case case27 =>
+    intro c m site body hs ih g
+    rw [renderPartial_eq, renderPartial_eq]
+    simp only [hs, if_false]
+    exact erase_seq (ih g) (by simp) (fun m1 => rfl)
+  case case29 =>
+    intro c m n ns ih1 ih2 g
+    rw [renderList_cons, renderList_cons]
+    exact erase_seq (ih1 g) rfl (fun m1 => ih2 m1 g)
+  case case31 =>
+    intro c m site body k ih1 ih2 g
+    rw [iterPartial_succ, iterPartial_succ]
+    exact erase_seq (ih1 g) rfl (fun m1 => ih2 m1 g)
+  case case33 =>
+    intro c m id body k ih1 ih2 g
+    rw [iter_succ, iter_succ]
+    exact erase_seq (ih1 g) (by simp) (fun m1 => ih2 m1 g)
+
 end LiquidVerif.LoopLimit
 
 
